@@ -20,7 +20,7 @@ RULE = ("ttl {1,1.5,4,3600,none} x delivery instant {E-1s,E-1us,E,E+1us,E+1s} x 
 ASSUMPTIONS = ["Redis and RabbitMQ are wire-level fakes", "virtual time; exact instants only at zero wire latency (redis polls priorities with 0.1 s sleeps, so its instants are approximate; the oracle uses the observed instants)",
                "with wire latency l the execution allowance after E is 2l + 0.35 s"]
 EVAL_COUNTER = "messages_judged"
-REQUIRED = ["messages_judged", "executed_live", "dead_lettered_expired", "dead_retrieved", "boundary_exact", "kind_retry_cross", "kind_retry_late", "kind_resched", "priority_high", "priority_low", "timezone_offset_runs", "arrivals_at_a_waiting_consumer", "mixed_queue_messages"]
+REQUIRED = ["messages_judged", "executed_live", "dead_lettered_expired", "dead_retrieved", "boundary_exact", "kind_retry_cross", "kind_retry_late", "kind_resched", "priority_high", "priority_low", "timezone_offset_runs", "arrivals_at_a_waiting_consumer", "mixed_queue_messages", "revived_messages_judged"]
 CASE_TIMEOUT = 120
 
 TTLS = [1.0, 1.5, 4.0, 3600.0, 90000.0, 172800.0, None]
@@ -64,6 +64,11 @@ def gen_cases(tier, seed):
         for i in range(3 if tier == "quick" else 12):
             cases.append({"broker": broker, "kind": "mixed", "ttl": None, "delta": 0.0, "latency": None if broker == "mem" else 0.004, "seed": rnd.randrange(10**6), "phase": 0.0,
                           "n": rnd.choice([3, 5, 9, 14]), "tl": rnd.choice([1, 3, 1000])})
+    # dead-lettered for their age, then revived by queue tooling (DEAD category + Message.reschedule(), the cookbook flow): the
+    # time-to-live counts from that reschedule - executed when a worker comes in time, dead-lettered again when it does not
+    for broker in ("mem", "redis", "rabbit"):
+        for wait in ((0.5, 3.5) if tier == "quick" else (0.0, 0.5, 1.9, 2.1, 3.5)):
+            cases.append({"broker": broker, "kind": "revive", "ttl": 2.0, "delta": wait, "latency": None if broker == "mem" else 0.004, "seed": rnd.randrange(10**6), "phase": rnd.choice([0.0, 0.25, 0.5, 0.999]), "n": 4})
     # the same property on a machine whose local time is not UTC (timestamps are naive local datetimes)
     for tz in ("AAA-5", "BBB5", "CCC-0:30"):
         for mode in ("live_recurring", "expired_after_reschedule"):
@@ -363,6 +368,80 @@ async def mixed_scenario(loop, case, out, stats, fps):
         await w.close()
 
 
+async def revive_scenario(loop, case, out, stats, fps):
+    from repid.message import Message, MessageCategory
+    from rv.wl import World, run_worker
+
+    broker, n, ttl, wait = case["broker"], case["n"], case["ttl"], case["delta"]
+    w = World(loop, broker, converter="basic", seed=case["seed"], latency=case["latency"])
+    try:
+        await w.open()
+        r = w.router()
+        w.scripted_actor(r, "act")
+        mb = w.conn.message_broker
+        await mb.queue_declare("default")
+        loop.jump(3600.0 + case["phase"])
+        ids = [f"v{i}" for i in range(n)]
+        for i, id_ in enumerate(ids):
+            # (one of them recurs: its revival is a reschedule like any other)
+            await w.job("act", id_, {"do": "ok", "d": 0.01}, ttl=timedelta(seconds=ttl), timeout=timedelta(seconds=30), store_result=False).enqueue()
+        await asyncio.sleep(ttl + 1.5)
+        sig = __import__("signal").SIGUSR1
+        # a worker weeds them out
+        await run_worker(w, w.worker([r], tasks_limit=3, graceful_shutdown_time=3.0, handle_signals=[sig]), until=lambda: all(w.rig.snapshot().get(i) == ["dead"] for i in ids), horizon=8.0, poll=0.25)
+        await asyncio.sleep(0.3)
+        snap = w.rig.snapshot()
+        ctx = f"revive/wait={wait}"
+        if any(snap.get(i) != ["dead"] for i in ids) or w.events("actor_start"):
+            out.append(V("expired_executed" if w.events("actor_start") else "expired_not_dead_lettered", broker, ctx + "/first-life", f"messages older than their {ttl}s time-to-live: places {snap}, executions {[e['id'] for e in w.events('actor_start')]}"))
+            return
+        # queue tooling revives them
+        cons = mb.get_consumer("default", None, None, MessageCategory.DEAD)
+        await cons.start()
+        t_rev = {}
+        for _ in ids:
+            try:
+                key, payload, params = await asyncio.wait_for(cons.consume(), 5.0)
+            except asyncio.TimeoutError:
+                break
+            stats["dead_retrieved"] += 1
+            await Message(key=key, raw_payload=payload, parameters=params, _connection=w.conn, _category=MessageCategory.DEAD).reschedule()
+            t_rev[key.id_] = loop.time()
+        await cons.finish()
+        if set(t_rev) != set(ids):
+            out.append(V("harness_or_api_error", broker, ctx, f"only {sorted(t_rev)} of {ids} could be read from the dead category"))
+            return
+        await asyncio.sleep(wait)
+        n0 = len(w.events("actor_start"))
+        t_worker = loop.time()
+        live = {i for i in ids if t_worker < t_rev[i] + ttl - 0.3}
+        gone = {i for i in ids if t_worker > t_rev[i] + ttl + 0.05}
+        await run_worker(w, w.worker([r], tasks_limit=3, graceful_shutdown_time=3.0, handle_signals=[sig]),
+                         until=lambda: {e["id"] for e in w.events("actor_end")} >= live and all(w.rig.snapshot().get(i) == ["dead"] for i in gone), horizon=8.0, poll=0.25)
+        await asyncio.sleep(0.3)
+        snap = w.rig.snapshot()
+        started = {e["id"]: e["t"] for e in w.events("actor_start")}
+        for i in ids:
+            stats["messages_judged"] += 1
+            stats["revived_messages_judged"] += 1
+            if i in started and started[i] > t_rev[i] + ttl + 0.001:
+                out.append(V("expired_executed", broker, ctx, f"{i} revived at +{t_rev[i]:.3f}s with a {ttl}s time-to-live was executed at +{started[i]:.3f}s"))
+            elif i in live and i not in started:
+                out.append(V("live_dead_lettered" if snap.get(i) == ["dead"] else "live_not_delivered", broker, ctx, f"{i}: dead-lettered for its age, rescheduled from the dead category at +{t_rev[i]:.3f}s (a new scheduling: {ttl}s to live from then), "
+                             f"a worker started {t_worker - t_rev[i]:.3f}s later; never executed, now at {snap.get(i)}"))
+            elif i in live:
+                stats["executed_live"] += 1
+            elif i in gone and i not in started:
+                if snap.get(i) == ["dead"]:
+                    stats["dead_lettered_expired"] += 1
+                elif snap.get(i) != ["waiting"]:
+                    out.append(V("expired_not_dead_lettered", broker, ctx, f"{i} (revived, expired again) is at {snap.get(i)}"))
+        fps.add(f"{broker}/revive/{wait}/{case['phase']}")
+        stats["unknown_server_commands"] += w.rig.unknown_commands()
+    finally:
+        await w.close()
+
+
 async def tz_scenario(loop, case, out, stats, fps):
     """Local time zone with a non-zero UTC offset: the time-to-live of a rescheduled message still counts from its
     rescheduling, in the same clock the expiry test uses. Only public API, no arithmetic on the harness epoch."""
@@ -441,6 +520,8 @@ def run_case(case):
         return {"fp": None, "fps": sorted(fps), "viol": out[:8], "stats": dict(stats)}
     if case.get("kind") == "mixed":
         res = vl.run(lambda loop: mixed_scenario(loop, case, out, stats, fps), max_steps=3_000_000, seed=case["seed"])
+    elif case.get("kind") == "revive":
+        res = vl.run(lambda loop: revive_scenario(loop, case, out, stats, fps), max_steps=3_000_000, seed=case["seed"])
     else:
         res = vl.run(lambda loop: scenario(loop, case, out, stats, fps, samples), max_steps=3_000_000, seed=case["seed"])
     if res.exc is not None:
